@@ -203,7 +203,11 @@ func runBoth(which, tier string) {
 			lens = lengths
 		}
 		for li, n := range lens {
-			RunCase(run, w, c, n, (i+li)%3 == 0, i+li, which, pt)
+			// length, write/read policy and armor are decorrelated (mixed radix over the case index), so that every
+			// length meets every policy: with pol = i the 64 KiB multiples only ever met Write-based policies
+			k := i + li*len(cases)
+			pol := (k/len(lengths) + li) % 12
+			RunCase(run, w, c, n, (k/(12*len(lengths))+li)%3 == 0 || (k%11 == 0), pol, which, pt)
 		}
 		run.Distinct(fmt.Sprintf("rs=%s/ids=%s", coregen.RecipSig(c.Rs), strings.Join(c.Ids, ",")))
 	})
